@@ -706,3 +706,46 @@ canary('c07-monitor-payload', 'C07', CONN, """            reference: OwnedTerm::
     pub async fn demonitor(""", 'TABLE:')
 canary('c07-mode-inverted', 'C07', CONN, ".map(|f| !f.has(DistributionFlags::DIST_HDR_ATOM_CACHE))", ".map(|f| !f.has(DistributionFlags::DIST_MONITOR))", 'mode-selection')
 canary('c07-passthrough-marker', 'C07', CONN, "                stream.write_u32(total_len as u32).await?;\n                stream.write_u8(PASS_THROUGH).await?;\n                stream.write_all(&control_encoded).await?;\n                stream.flush().await?;", "                stream.write_u32(total_len as u32).await?;\n                stream.write_u8(DIST_HEADER).await?;\n                stream.write_all(&control_encoded).await?;\n                stream.flush().await?;", 'WIRE:')
+
+# ---- C15 ----
+DEF = 'crates/erltf_serde/src/de.rs'
+SERF = 'crates/erltf_serde/src/ser.rs'
+canary('c15-u64-no-bigint', 'C15', DEF, """            OwnedTerm::BigInt(big) if big.sign.is_positive() && big.digits.len() <= 8 => {
+                let mut bytes = [0u8; 8];
+                bytes[..big.digits.len()].copy_from_slice(&big.digits);
+                let value = u64::from_le_bytes(bytes);
+                visitor.visit_u64(value)
+            }
+""", "", 'CLOSURE:u64')
+canary('c15-unit-atom', 'C15', SERF, """    fn serialize_unit(self) -> Result<OwnedTerm> {
+        Ok(OwnedTerm::Atom(Atom::new("nil")))""", """    fn serialize_unit(self) -> Result<OwnedTerm> {
+        Ok(OwnedTerm::Atom(Atom::new("unit")))""", 'CONST:serde:unit')
+canary('c15-i64-bigint-dropped', 'C15', DEF, """            OwnedTerm::BigInt(big) => bigint_to_i64(big)
+                .ok_or_else(|| Error::InvalidValue("big integer out of range for i64".into()))
+                .and_then(|v| visitor.visit_i64(v)),
+""", "", 'CLOSURE:i64')
+canary('c15-str-as-string-variant', 'C15', SERF, "        Ok(OwnedTerm::Binary(v.as_bytes().to_vec()))\n    }\n\n    fn serialize_bytes", "        Ok(OwnedTerm::List(v.bytes().map(|b| OwnedTerm::Integer(b as i64)).collect()))\n    }\n\n    fn serialize_bytes", 'CLOSURE:str')
+canary('c15-seq-rejects-nil', 'C15', DEF, """            OwnedTerm::List(l) => visitor.visit_seq(SeqDeserializer::new(l)),
+            OwnedTerm::Nil => visitor.visit_seq(SeqDeserializer::new(&[])),
+            _ => Err(Error::TypeMismatch {
+                expected: "list".into(),""", """            OwnedTerm::List(l) => visitor.visit_seq(SeqDeserializer::new(l)),
+            _ => Err(Error::TypeMismatch {
+                expected: "list".into(),""", 'CLOSURE:seq')
+canary('c15-struct-variant-shape', 'C15', SERF, """        Ok(OwnedTerm::Tuple(vec![
+            OwnedTerm::Atom(Atom::new(self.name)),
+            OwnedTerm::Map(self.map),
+        ]))""", """        let mut m = self.map;
+        m.insert(OwnedTerm::Atom(Atom::new("__variant__")), OwnedTerm::Atom(Atom::new(self.name)));
+        Ok(OwnedTerm::Map(m))""", 'TABLE:serde:struct_variant')
+canary('c15-char-binary-dropped', 'C15', DEF, """            // strings travel as binaries on the wire
+            OwnedTerm::Binary(b) => {
+                let s = str::from_utf8(b).map_err(|e| Error::InvalidValue(e.to_string()))?;
+                let mut chars = s.chars();
+                if let Some(c) = chars.next()
+                    && chars.next().is_none()
+                {
+                    return visitor.visit_char(c);
+                }
+                Err(Error::InvalidValue("expected single char".into()))
+            }
+""", "", 'CLOSURE:char')
